@@ -91,6 +91,16 @@ def scenarios(tier):
                     "init": "empty", "pristine": True, "p": "1x1", "pids": ("p1", "p2"),
                     "threads": {"T1": [("tag", "p1", "S1")], "T2": [("tag", "p2", "S2")]},
                     "faults": {"T1": (site, 0, "EIO", True)}})
+    # every fault-site class of one call (one-off EIO; thorough: also persistent) x every interleaving with the other call:
+    # the sequential reference runs inject the same fault (scenarios shared with C08, judged for linearizability here)
+    from .c08 import faulted_scenarios
+    for sp in faulted_scenarios(tier):
+        if any(op[0] in ("store_meta", "delete_meta") for prog in sp["threads"].values() for op in prog):
+            continue
+        sp = {k: v for k, v in sp.items() if k not in ("judge", "followups", "formats")}
+        sp["pids"] = ("p1", "p2")
+        if sp["name"] not in {x["name"] for x in out}:
+            out.append(sp)
     # a store whose shard directories are shared by different contents (depth 1, width 1)
     out.append({"name": "dii(S2 wrong)||store(p1,S1) from S2 unreferenced [depth 1 width 1]", "init": "S2unref", "p": "1x1",
                 "threads": {"T1": [("dii", "S2", "badsize")], "T2": [("store", "p1", "S1", None)]}, "pids": ("p1", "p2")})
